@@ -50,14 +50,14 @@ pub proof fn lemma_ci_at_unique(rem: Seq<(usize, char)>, input: Seq<char>, n1: i
     assert(rem.len() == input.skip(n2).len());
 }
 
-pub proof fn lemma_reach_unfold(d: CompiledDfa, cls: Cls, w: Seq<char>, t: int)
+pub proof fn lemma_reach_unfold(d: DfaCore, cls: Cls, w: Seq<char>, t: int)
     requires w.len() > 0
     ensures reach(d, cls, w, t) == (exists|s: int| 0 <= s < d.states@.len() && reach(d, cls, w.drop_last(), s) && #[trigger] step1(d, cls, s, w.last(), t))
 {
     reveal(best_inner); reveal(best_outer); reveal(fired_to);
 }
 
-pub proof fn lemma_reach_empty_stays(d: CompiledDfa, cls: Cls, text: Seq<char>, k: int, l: int)
+pub proof fn lemma_reach_empty_stays(d: DfaCore, cls: Cls, text: Seq<char>, k: int, l: int)
     requires 0 <= k <= l <= text.len(), forall|t: int| !reach(d, cls, text.take(k), t)
     ensures forall|t: int| !reach(d, cls, text.take(l), t)
     decreases l - k
@@ -79,7 +79,7 @@ pub proof fn lemma_prio_unique(ids: Seq<TerminalID>, tid: TerminalID, r1: int, r
     reveal(best_inner); reveal(best_outer); reveal(fired_to);
 }
 
-pub proof fn lemma_longest_unique(d: CompiledDfa, cls: Cls, rest: Seq<char>, l1: int, l2: int)
+pub proof fn lemma_longest_unique(d: DfaCore, cls: Cls, rest: Seq<char>, l1: int, l2: int)
     requires is_longest(d, cls, rest, l1), is_longest(d, cls, rest, l2)
     ensures l1 == l2
 {
@@ -87,7 +87,7 @@ pub proof fn lemma_longest_unique(d: CompiledDfa, cls: Cls, rest: Seq<char>, l1:
 }
 
 /// moving the inner cursor one transition further
-pub proof fn lemma_fired_step(d: CompiledDfa, cls: Cls, cur: Seq<StateSetID>, c: char, j: int, i: int)
+pub proof fn lemma_fired_step(d: DfaCore, cls: Cls, cur: Seq<StateSetID>, c: char, j: int, i: int)
     requires 0 <= j < cur.len(), 0 <= i < trans(d, cur[j].0 as int).len()
     ensures forall|t: int| #[trigger] fired_to(d, cls, cur, c, j, i + 1, t) <==>
         (fired_to(d, cls, cur, c, j, i, t) || (fires(d, cls, cur[j].0 as int, i, c) && trans(d, cur[j].0 as int)[i].1.0 == t))
@@ -113,7 +113,7 @@ pub proof fn lemma_fired_step(d: CompiledDfa, cls: Cls, cur: Seq<StateSetID>, c:
 }
 
 /// finishing a state's transitions = starting the next state
-pub proof fn lemma_fired_next_state(d: CompiledDfa, cls: Cls, cur: Seq<StateSetID>, c: char, j: int)
+pub proof fn lemma_fired_next_state(d: DfaCore, cls: Cls, cur: Seq<StateSetID>, c: char, j: int)
     requires 0 <= j < cur.len()
     ensures forall|t: int| #[trigger] fired_to(d, cls, cur, c, j, trans(d, cur[j].0 as int).len() as int, t) <==> fired_to(d, cls, cur, c, j + 1, 0, t)
 {
@@ -130,7 +130,7 @@ pub proof fn lemma_fired_next_state(d: CompiledDfa, cls: Cls, cur: Seq<StateSetI
 }
 
 /// after all current states are processed, fired_to is exactly one step of reachability
-pub proof fn lemma_fired_all_is_reach(d: CompiledDfa, cls: Cls, text: Seq<char>, k: int, cur: Seq<StateSetID>)
+pub proof fn lemma_fired_all_is_reach(d: DfaCore, cls: Cls, text: Seq<char>, k: int, cur: Seq<StateSetID>)
     requires
         0 <= k < text.len(),
         wf_flat(d),
@@ -162,7 +162,7 @@ pub proof fn lemma_fired_all_is_reach(d: CompiledDfa, cls: Cls, text: Seq<char>,
 }
 
 /// no_better is transitive enough: if (l,tid) beats the old best which was no worse than x, then (l,tid) is no worse than x
-pub proof fn lemma_no_better_trans(d: CompiledDfa, cls: Cls, text: Seq<char>, l: int, tid: TerminalID, l1: int, tid1: TerminalID, l2: int, tid2: TerminalID)
+pub proof fn lemma_no_better_trans(d: DfaCore, cls: Cls, text: Seq<char>, l: int, tid: TerminalID, l1: int, tid1: TerminalID, l2: int, tid2: TerminalID)
     requires
         no_better(d, cls, text, l, tid, l1, tid1),
         no_better(d, cls, text, l1, tid1, l2, tid2),
@@ -172,7 +172,7 @@ pub proof fn lemma_no_better_trans(d: CompiledDfa, cls: Cls, text: Seq<char>, l:
 }
 
 /// without lookaheads the best candidate is the longest match
-pub proof fn lemma_nola_best_is_longest(d: CompiledDfa, cls: Cls, rest: Seq<char>, base: nat, res: Option<Match>)
+pub proof fn lemma_nola_best_is_longest(d: DfaCore, cls: Cls, rest: Seq<char>, base: nat, res: Option<Match>)
     requires d.lookaheads@.len() == 0, find_post(d, cls, rest, base, res)
     ensures
         (res is Some) == has_match(d, cls, rest),
@@ -213,7 +213,7 @@ pub proof fn lemma_nola_best_is_longest(d: CompiledDfa, cls: Cls, rest: Seq<char
 }
 
 
-pub proof fn lemma_len0_no_key(d: CompiledDfa)
+pub proof fn lemma_len0_no_key(d: DfaCore)
     requires d.lookaheads@.len() == 0
     ensures forall|t: TerminalID| !d.lookaheads@.contains_key(t)
 {
@@ -225,7 +225,7 @@ pub proof fn lemma_len0_no_key(d: CompiledDfa)
     }
 }
 
-pub proof fn lemma_key_len_pos(d: CompiledDfa, t: TerminalID)
+pub proof fn lemma_key_len_pos(d: DfaCore, t: TerminalID)
     requires d.lookaheads@.contains_key(t)
     ensures d.lookaheads@.len() > 0
 {
@@ -258,7 +258,7 @@ pub proof fn lemma_take_take_skip(input: Seq<char>, n0: int, k: int)
 }
 
 /// what the loop body does to the best candidate when transition i of state cur[j] has been looked at
-pub open spec fn upd(d: CompiledDfa, cls: Cls, text: Seq<char>, base: nat, k: int, t: int, hit: bool,
+pub open spec fn upd(d: DfaCore, cls: Cls, text: Seq<char>, base: nat, k: int, t: int, hit: bool,
     m_end: Option<usize>, m_ext: Option<usize>, m_tid: Option<TerminalID>,
     n_end: Option<usize>, n_ext: Option<usize>, n_tid: Option<TerminalID>) -> bool
 {
@@ -279,7 +279,7 @@ pub open spec fn upd(d: CompiledDfa, cls: Cls, text: Seq<char>, base: nat, k: in
     }
 }
 
-pub proof fn lemma_best_step(d: CompiledDfa, cls: Cls, text: Seq<char>, base: nat, k: int, cur: Seq<StateSetID>, c: char, j: int, i: int, t: int, hit: bool,
+pub proof fn lemma_best_step(d: DfaCore, cls: Cls, text: Seq<char>, base: nat, k: int, cur: Seq<StateSetID>, c: char, j: int, i: int, t: int, hit: bool,
     m_end: Option<usize>, m_ext: Option<usize>, m_tid: Option<TerminalID>,
     n_end: Option<usize>, n_ext: Option<usize>, n_tid: Option<TerminalID>)
     requires
@@ -375,15 +375,15 @@ pub proof fn lemma_best_step(d: CompiledDfa, cls: Cls, text: Seq<char>, base: na
     }
 }
 
-pub proof fn lemma_extent_bound(d: CompiledDfa, cls: Cls, text: Seq<char>, l: int, tid: TerminalID)
+pub proof fn lemma_extent_bound(d: DfaCore, cls: Cls, text: Seq<char>, l: int, tid: TerminalID)
     requires 1 <= l <= text.len()
     ensures extent(d, cls, text, l, tid) <= blen(text), blen(text.take(l)) <= extent(d, cls, text, l, tid)
 {
     reveal(best_inner); reveal(best_outer); reveal(fired_to);
     let rest = text.skip(l);
     lemma_blen_split(text, l);
-    if d.lookaheads@.contains_key(tid) && d.lookaheads@[tid].is_positive && has_match(*d.lookaheads@[tid].nfa, cls, rest) {
-        let nfa = *d.lookaheads@[tid].nfa;
+    if d.lookaheads@.contains_key(tid) && d.lookaheads@[tid].is_positive && has_match(core(*d.lookaheads@[tid].nfa), cls, rest) {
+        let nfa = core(*d.lookaheads@[tid].nfa);
         let (l1, t1) = choose|l1: int, t1: TerminalID| 1 <= l1 <= rest.len() && #[trigger] acc(nfa, cls, rest.take(l1), t1);
         lemma_longest_exists(nfa, cls, rest, l1, rest.len() as int);
         let m = longest(nfa, cls, rest);
@@ -392,7 +392,7 @@ pub proof fn lemma_extent_bound(d: CompiledDfa, cls: Cls, text: Seq<char>, l: in
 }
 
 /// there is a longest match whenever there is a match
-pub proof fn lemma_longest_exists(d: CompiledDfa, cls: Cls, rest: Seq<char>, l1: int, hi: int)
+pub proof fn lemma_longest_exists(d: DfaCore, cls: Cls, rest: Seq<char>, l1: int, hi: int)
     requires 1 <= l1 <= hi <= rest.len(), exists|t1: TerminalID| #[trigger] acc(d, cls, rest.take(l1), t1),
         forall|l2: int, tid2: TerminalID| hi < l2 <= rest.len() ==> !#[trigger] acc(d, cls, rest.take(l2), tid2)
     ensures is_longest(d, cls, rest, longest(d, cls, rest))
@@ -408,7 +408,7 @@ pub proof fn lemma_longest_exists(d: CompiledDfa, cls: Cls, rest: Seq<char>, l1:
 }
 
 
-pub proof fn lemma_outer_to_inner(d: CompiledDfa, cls: Cls, text: Seq<char>, base: nat, k: int, cur: Seq<StateSetID>, c: char,
+pub proof fn lemma_outer_to_inner(d: DfaCore, cls: Cls, text: Seq<char>, base: nat, k: int, cur: Seq<StateSetID>, c: char,
     m_end: Option<usize>, m_ext: Option<usize>, m_tid: Option<TerminalID>)
     requires best_outer(d, cls, text, base, k, m_end, m_ext, m_tid)
     ensures best_inner(d, cls, text, base, k, cur, c, 0, 0, m_end, m_ext, m_tid)
@@ -424,7 +424,7 @@ pub proof fn lemma_outer_to_inner(d: CompiledDfa, cls: Cls, text: Seq<char>, bas
     }
 }
 
-pub proof fn lemma_inner_to_outer(d: CompiledDfa, cls: Cls, text: Seq<char>, base: nat, k: int, cur: Seq<StateSetID>,
+pub proof fn lemma_inner_to_outer(d: DfaCore, cls: Cls, text: Seq<char>, base: nat, k: int, cur: Seq<StateSetID>,
     m_end: Option<usize>, m_ext: Option<usize>, m_tid: Option<TerminalID>)
     requires
         0 <= k < text.len(), wf_flat(d),
@@ -457,7 +457,7 @@ pub proof fn lemma_inner_to_outer(d: CompiledDfa, cls: Cls, text: Seq<char>, bas
     }
 }
 
-pub proof fn lemma_outer_to_post(d: CompiledDfa, cls: Cls, text: Seq<char>, base: nat, k: int,
+pub proof fn lemma_outer_to_post(d: DfaCore, cls: Cls, text: Seq<char>, base: nat, k: int,
     m_start: Option<usize>, m_end: Option<usize>, m_ext: Option<usize>, m_tid: Option<TerminalID>, res: Option<Match>)
     requires
         0 <= k <= text.len(), base + blen(text) <= usize::MAX,
@@ -485,13 +485,13 @@ pub proof fn lemma_outer_to_post(d: CompiledDfa, cls: Cls, text: Seq<char>, base
     }
 }
 
-pub proof fn lemma_best_outer_init(d: CompiledDfa, cls: Cls, text: Seq<char>, base: nat)
+pub proof fn lemma_best_outer_init(d: DfaCore, cls: Cls, text: Seq<char>, base: nat)
     ensures best_outer(d, cls, text, base, 0, None, None, None)
 {
     reveal(best_outer);
 }
 
-pub proof fn lemma_outer_shape(d: CompiledDfa, cls: Cls, text: Seq<char>, base: nat, k: int,
+pub proof fn lemma_outer_shape(d: DfaCore, cls: Cls, text: Seq<char>, base: nat, k: int,
     m_end: Option<usize>, m_ext: Option<usize>, m_tid: Option<TerminalID>)
     requires best_outer(d, cls, text, base, k, m_end, m_ext, m_tid)
     ensures (m_tid is Some) == (m_end is Some), (m_tid is Some) == (m_ext is Some), m_tid is Some ==> k >= 1
@@ -502,7 +502,7 @@ pub proof fn lemma_outer_shape(d: CompiledDfa, cls: Cls, text: Seq<char>, base: 
     }
 }
 
-pub proof fn lemma_inner_shape(d: CompiledDfa, cls: Cls, text: Seq<char>, base: nat, k: int, cur: Seq<StateSetID>, c: char, j: int, i: int,
+pub proof fn lemma_inner_shape(d: DfaCore, cls: Cls, text: Seq<char>, base: nat, k: int, cur: Seq<StateSetID>, c: char, j: int, i: int,
     m_end: Option<usize>, m_ext: Option<usize>, m_tid: Option<TerminalID>)
     requires wf_flat(d), best_inner(d, cls, text, base, k, cur, c, j, i, m_end, m_ext, m_tid)
     ensures (m_tid is Some) == (m_end is Some), (m_tid is Some) == (m_ext is Some),
@@ -518,7 +518,7 @@ pub proof fn lemma_inner_shape(d: CompiledDfa, cls: Cls, text: Seq<char>, base: 
     }
 }
 
-pub proof fn lemma_next_states_step(d: CompiledDfa, cls: Cls, cur: Seq<StateSetID>, c: char, j: int, i: int,
+pub proof fn lemma_next_states_step(d: DfaCore, cls: Cls, cur: Seq<StateSetID>, c: char, j: int, i: int,
     o_next: Seq<StateSetID>, n_next: Seq<StateSetID>, nx: StateSetID, fired: bool)
     requires
         wf_flat(d), 0 <= j < cur.len(), cur[j].0 < d.states@.len(), 0 <= i < trans(d, cur[j].0 as int).len(),
@@ -571,18 +571,18 @@ pub proof fn lemma_split_none_impossible(input: Seq<char>, n0: int, k: int, mid:
 }
 
 /// the lookahead bookkeeping of the loop body agrees with la_ok / la_len
-pub proof fn lemma_la_absent(d: CompiledDfa, cls: Cls, tid: TerminalID, rest: Seq<char>)
+pub proof fn lemma_la_absent(d: DfaCore, cls: Cls, tid: TerminalID, rest: Seq<char>)
     requires !d.lookaheads@.contains_key(tid)
     ensures la_ok(d, cls, tid, rest), la_len(d, cls, tid, rest) == 0
 {
 }
 
-pub proof fn lemma_la_present(d: CompiledDfa, cls: Cls, tid: TerminalID, rest: Seq<char>, satisfied: bool, len: nat)
+pub proof fn lemma_la_present(d: DfaCore, cls: Cls, tid: TerminalID, rest: Seq<char>, satisfied: bool, len: nat)
     requires
         d.lookaheads@.contains_key(tid),
-        satisfied == (d.lookaheads@[tid].is_positive == has_match(*d.lookaheads@[tid].nfa, cls, rest)),
-        has_match(*d.lookaheads@[tid].nfa, cls, rest) ==> len == blen(rest.take(longest(*d.lookaheads@[tid].nfa, cls, rest))),
-        !has_match(*d.lookaheads@[tid].nfa, cls, rest) ==> len == 0,
+        satisfied == (d.lookaheads@[tid].is_positive == has_match(core(*d.lookaheads@[tid].nfa), cls, rest)),
+        has_match(core(*d.lookaheads@[tid].nfa), cls, rest) ==> len == blen(rest.take(longest(core(*d.lookaheads@[tid].nfa), cls, rest))),
+        !has_match(core(*d.lookaheads@[tid].nfa), cls, rest) ==> len == 0,
     ensures
         satisfied == la_ok(d, cls, tid, rest),
         satisfied ==> len == la_len(d, cls, tid, rest),
@@ -597,13 +597,13 @@ pub proof fn lemma_blen_take_next(text: Seq<char>, k: int)
     lemma_blen_take_mono(text, k, k + 1);
 }
 
-pub proof fn lemma_fired_none(d: CompiledDfa, cls: Cls, cur: Seq<StateSetID>, c: char)
+pub proof fn lemma_fired_none(d: DfaCore, cls: Cls, cur: Seq<StateSetID>, c: char)
     ensures forall|t: int| !fired_to(d, cls, cur, c, 0, 0, t)
 {
     reveal(fired_to);
 }
 
-pub proof fn lemma_best_inner_next_state(d: CompiledDfa, cls: Cls, text: Seq<char>, base: nat, k: int, cur: Seq<StateSetID>, c: char, j: int,
+pub proof fn lemma_best_inner_next_state(d: DfaCore, cls: Cls, text: Seq<char>, base: nat, k: int, cur: Seq<StateSetID>, c: char, j: int,
     m_end: Option<usize>, m_ext: Option<usize>, m_tid: Option<TerminalID>)
     requires 0 <= j < cur.len(),
         best_inner(d, cls, text, base, k, cur, c, j, trans(d, cur[j].0 as int).len() as int, m_end, m_ext, m_tid)
@@ -623,7 +623,7 @@ pub proof fn lemma_best_inner_next_state(d: CompiledDfa, cls: Cls, text: Seq<cha
         }
     }
 }
-pub proof fn lemma_reach_in_range(d: CompiledDfa, cls: Cls, w: Seq<char>, t: int)
+pub proof fn lemma_reach_in_range(d: DfaCore, cls: Cls, w: Seq<char>, t: int)
     requires wf_flat(d), reach(d, cls, w, t)
     ensures 0 <= t < d.states@.len()
 {
